@@ -173,6 +173,82 @@ def bdd_from_fn(nv, variables, fn):
     return nodes
 
 
+def bdd_from_graph(nv, root, expand):
+    """Canonical array (library layout: DFS post-order, high child first) of the function described by a state graph:
+    expand(state) -> True | False | (var, low_state, high_state), variables increasing along edges.  Nodes are
+    hash-consed, so different states may denote the same function.  Recursion depth = number of levels."""
+    nodes = [(nv, 0, 0), (nv, 1, 1)]
+    index, memo = {}, {}
+
+    def build(s):
+        if s is True or s is False:
+            return 1 if s else 0
+        r = memo.get(s)
+        if r is not None:
+            return r
+        e = expand(s)
+        if e is True or e is False:
+            r = 1 if e else 0
+        else:
+            x, lo_s, hi_s = e
+            hi = build(hi_s)
+            lo = build(lo_s)
+            if lo == hi:
+                r = lo
+            else:
+                nd = (x, lo, hi)
+                r = index.get(nd)
+                if r is None:
+                    nodes.append(nd)
+                    r = index[nd] = len(nodes) - 1
+        memo[s] = r
+        return r
+
+    root = build(root)
+    if root == 0:
+        return [(nv, 0, 0)]
+    if root == 1:
+        return [(nv, 0, 0), (nv, 1, 1)]
+    return nodes
+
+
+def pairing_bdd(n, reversed_partner=False):
+    """AND_i (x_i <=> x_partner(i)) over 2n variables, partner(i) = n+i (or 2n-1-i): all x_i ordered before their partners,
+    so the diagram has exactly 3*2^n - 1 nodes (a complete tree over x_0..x_{n-1}, then one comparison chain per suffix)"""
+    def expand(s):
+        kind, k, bits = s          # bits: tuple of the x_i read so far (top) / still to be compared (bottom)
+        if kind == "t":
+            if k == n:
+                return expand(("b", 0, bits))
+            return (k, ("t", k + 1, bits + (False,)), ("t", k + 1, bits + (True,)))
+        if k == n:
+            return True
+        if reversed_partner:      # level n+k compares with x_{n-1-k}: the LAST pending bit
+            want, rest = bits[-1], bits[:-1]
+        else:                     # level n+k compares with x_k: the FIRST pending bit
+            want, rest = bits[0], bits[1:]
+        nxt = ("b", k + 1, rest)
+        return (n + k, False, nxt) if want else (n + k, nxt, False)
+    return bdd_from_graph(2 * n, ("t", 0, ()), expand)
+
+
+def block_equality_bdd(n):
+    """X == Y for X = x_0..x_{n-1}, Y = x_{n+1}..x_{2n} over 2n+1 variables (x_n is left free for a lone "switch" variable
+    between the blocks): 3*2^n - 1 nodes"""
+    def expand(s):
+        kind, k, bits = s
+        if kind == "t":
+            if k == n:
+                return expand(("b", 0, bits))
+            return (k, ("t", k + 1, bits + (False,)), ("t", k + 1, bits + (True,)))
+        if k == n:
+            return True
+        want, rest = bits[0], bits[1:]
+        nxt = ("b", k + 1, rest)
+        return (n + 1 + k, False, nxt) if want else (n + 1 + k, nxt, False)
+    return bdd_from_graph(2 * n + 1, ("t", 0, ()), expand)
+
+
 def bdd_from_tt(nv, variables, ttbits):
     """ttbits: sequence of 2^k bools over `variables` (first variable most significant)."""
     variables = sorted(variables)
